@@ -1,4 +1,5 @@
 import GohtVerif.Model.Render
+import GohtVerif.Model.Runtime
 /-! Line-protocol driver: one request per line, fields hex-encoded; one reply line per request. -/
 open GL
 
@@ -55,12 +56,50 @@ def parseEnv (fields : List String) : Env := Id.run do
         | _ => pure ()
   return env
 
+def splitNE (s : String) (sep : String) : List String := (s.splitOn sep).filter (· != "")
+/-- helper fields carry a leading underscore so that the empty string is a visible field -/
+def hxu (s : String) : GoStr := hx ((s.dropWhile (· == '_')).toString)
+
+def parseVal (a : String) : Val :=
+  match a.splitOn ":" with
+  | [kind, rest] =>
+    let items := splitNE rest ","
+    match kind with
+    | "S" => .str (hxu rest)
+    | "L" => .strs (items.map hxu)
+    | "LN" => .strs []
+    | "B" => .mapBool (items.filterMap fun it => match it.splitOn "=" with | [k, v] => some (hxu k, v == "1") | _ => none)
+    | "BN" => .mapBool []
+    | "M" => .mapStr (items.filterMap fun it => match it.splitOn "=" with | [k, v] => some (hxu k, hxu v) | [k] => some (hxu k, []) | _ => none)
+    | "MN" => .mapStr []
+    | _ => .other
+  | _ => .other
+
+def showOpt : Option GoStr → String
+  | some s => s!"ok {toHex s}"
+  | none => "err"
+
+def doHelper (f : List String) : String :=
+  match f with
+  | "class" :: args => showOpt (buildClassList (args.map parseVal))
+  | "attr" :: args => showOpt (buildAttributeList (args.map parseVal))
+  | fn :: kind :: idh :: clsh :: rest =>
+    let o : Obj := match kind with
+      | "both" => { id := some (hxu idh), cls := some (hxu clsh) }
+      | "id" => { id := some (hxu idh), cls := none }
+      | "cls" => { id := none, cls := some (hxu clsh) }
+      | _ => { id := none, cls := none }
+    let pfx := rest.head?.map hxu
+    if fn == "oid" then s!"ok {toHex (objectID o pfx)}" else s!"ok {toHex (objectClass o pfx)}"
+  | _ => "BAD"
+
 def handle (line : String) : String :=
   match line.trimAscii.toString.splitOn " " with
   | ["L", input] => doLex (hx input)
   | ["L"] => doLex []
   | ["C", input] => doCompile (hx input)
   | ["C"] => doCompile []
+  | "H" :: rest => doHelper rest
   | "R" :: file :: name :: rest =>
     match renderTop (hx file) (hx name) (parseEnv rest) with
     | .ok b => s!"OK {toHex b}X"
